@@ -124,6 +124,13 @@ double BfgsMultiDimensions::doStep()
   {
     printMessage("!!! Function increase !!!");
     printMessage("!!! Optimization might have failed. Try to reparametrize your function to remove constraints.");
+    // Do not end on a point worse than the one this step started from: go back to it.
+    for (i = 0; i < n; ++i)
+    {
+      getParameters_()[i].setValue(p_[i]);
+    }
+    f = getFunction()->f(getParameters());
+    nbEval_++;
     tolIsReached_ = true;
     return f;
   }
